@@ -112,13 +112,14 @@ def record_sessions(ctx, n):
                 again = [x for x in f.read().splitlines() if x.strip()]
             if len(again) >= lineno:
                 r2 = json.loads(again[lineno - 1])
-                if all(r2.get(k) == rec.get(k) for k in ("ver", "st", "ev", "got", "fresh", "session", "step")):
-                    kind = "reused!=fresh" if rec["got"] != rec["fresh"] else "verdict"
+                if all(r2.get(k) == rec.get(k) for k in ("ver", "st", "ev", "got", "fresh", "sub", "session", "step")):
+                    kind = ("reused!=fresh" if rec["got"] != rec["fresh"] else
+                            "needed-subset" if rec["got"] != rec["sub"] else "verdict")
                     ctx.disagree("C09/session/%s/%s/reused=%s" % (kind, rec.get("key", "?"), rec["got"]),
                                  "session %d step %d in room version %s (%s): the reused checker says allowed=%s, a fresh Allowed "
-                                 "says %s; Checker_trace.tla does not explain the line (the verdict must be the specification's "
+                                 "says %s, a fresh Allowed over exactly the state StateNeededForAuth names says %s; Checker_trace.tla does not explain the line (the verdict must be the specification's "
                                  "for the event and the state it needs, whatever was checked before)"
-                                 % (rec["session"], rec["step"], rec["ver"], rec.get("key"), rec["got"], rec["fresh"]),
+                                 % (rec["session"], rec["step"], rec["ver"], rec.get("key"), rec["got"], rec["fresh"], rec["sub"]),
                                  {"harness": "c09rec", "args": ["-n", lineno, "-seed", ctx.seed], "line": lineno, "record": rec, "count": 1})
                     return
         unreproduced.append(lineno)
